@@ -452,7 +452,7 @@ class CtxRecorder:
         g2 = [[O(x.members()), P(i.members())] for x, i in alg.fcbo_dual(ctx)]
         return c, cov, jm, rel, g1, g2
 
-    def rel(self, kind, rng, i=None, j=None):
+    def rel(self, kind, rng, i=None, j=None, perm=None):
         C = self.C
         n, m = self.table.n, self.table.m
         d = self.ctx.definition()
@@ -460,8 +460,12 @@ class CtxRecorder:
         omap, pmap = dict(self.opos), dict(self.ppos)
         if kind == 'perm':
             ol, pl = list(self.olabels), list(self.plabels)
-            rng.shuffle(ol)
-            rng.shuffle(pl)
+            if perm is None:
+                rng.shuffle(ol)
+                rng.shuffle(pl)
+            else:
+                ol = [ol[k] for k in perm[0]]
+                pl = [pl[k] for k in perm[1]]
             d2 = d.take(objects=ol, properties=pl, reorder=True)
             params = {'pi': [self.opos[x] for x in ol], 'rho': [self.ppos[x] for x in pl]}
         elif kind == 'transpose':
@@ -724,8 +728,14 @@ def drive(rec, table, b, families, rng, exhaustive_queries, nsub=10, nmulti=12, 
         T(rec.lat_labels)
     if 'C15' in families:
         nperm = 3 if n * m <= 12 else 2
-        for _ in range(nperm):
-            T(rec.rel, 'perm', rng)
+        if os.environ.get('VERIF_TIER_RUNNING') == 'thorough' and n <= 3 and m <= 3 and exhaustive_queries:
+            # every pair of a row permutation and a column permutation
+            for pr in itertools.permutations(range(n)):
+                for pc in itertools.permutations(range(m)):
+                    T(rec.rel, 'perm', rng, perm=(pr, pc))
+        else:
+            for _ in range(nperm):
+                T(rec.rel, 'perm', rng)
         T(rec.rel, 'transpose', rng)
         for i in (range(1, n + 1) if n <= 4 else rng.sample(range(1, n + 1), 3)):
             T(rec.rel, 'duprow', rng, i=i)
